@@ -7,7 +7,7 @@
  * History = compile-time scenario over ALPHA (all histories of length NOPS generated,
  * first operation = a new accepted connection); callback behaviour is an obligation
  * constant: CLOSED_RETRY (connection_closed returns non-zero the first time),
- * CREATED_DISC (connection_created disconnects the connection), MSG_DISC (msg_process
+ * CREATED_DISC (connection_created disconnects the connection; 2: after taking a reference of its own), MSG_DISC (msg_process
  * disconnects), DESTROYED_ITER (connection_destroyed walks the connection list).  CBMC's pointer checks decide use-after-free / double free on the real
  * free(c) / free(s); the monitor decides the callback order.
  */
@@ -119,6 +119,10 @@ static void s_created(qb_ipcs_connection_t *c)
 	int i = id_of(c);
 	PROP(i >= 0 && st_accept[i] && !st_destroyed[i], "created: after accept, before destroyed");
 	if (i >= 0) { PROP(st_created[i] == 0, "created at most once"); st_created[i]++; }
+#if CREATED_DISC == 2
+	/* the application keeps a reference of its own and then gives the connection up */
+	if (i >= 0) { qb_ipcs_connection_ref(c); app_refs[i]++; }
+#endif
 #if CREATED_DISC
 	qb_ipcs_disconnect(c);
 #endif
@@ -266,6 +270,7 @@ static void harness_scenario(int s0)
 
 	/* wind down: application drops its references, queued retries run, the service goes away */
 	while (app_refs[0] > 0) do_op(5);
+	for (int i = 1; i < MAXC; i++) while (i < nconn && app_refs[i] > 0) { app_refs[i]--; qb_ipcs_connection_unref(conn[i]); }    /* (references taken inside callbacks of the bystander) */
 	for (int k = 0; k < MAXJOBS; k++) do_op(6);
 	for (int i = 0; i < MAXC; i++) {
 		if (i < nconn && st_created[i] && !st_destroyed[i] && !st_closed[i]) qb_ipcs_disconnect(conn[i]);
